@@ -199,19 +199,15 @@ impl AggregateExecutionEngine {
                 }
             }
             Aggregate::CollectArray(ref expression) => {
+                // All values are kept (also NULL); the array gets the type of its first non-NULL value
                 let column_value = expression_execution_engine.evaluate(expression)?;
-                let group_value = self.get_group_value(
+                let aggregator = self.get_group_aggregator(
                     group_key.clone(),
                     aggregate_index,
-                    || {
-                        let element_type = column_value.value_type().ok_or(ExecutionError::CannotCreateArrayOfNullType)?;
-                        Ok(ValueType::Array(Box::new(element_type)).default_value())
-                    }
+                    || GroupAggregator::default(aggregate, &column_value)
                 )?;
 
-                if let Value::Array(_, array) = group_value {
-                    array.push(column_value.clone());
-                }
+                aggregator.update(column_value)?;
             }
             Aggregate::CollectString(ref expression, delimiter) => {
                 let column_value = expression_execution_engine.evaluate(expression)?;
@@ -418,7 +414,8 @@ enum GroupAggregator {
     Percentile { values: Vec<Value>, percentile: f64 },
     BoolAnd { value: Option<bool> },
     BoolOr { value: Option<bool> },
-    CountDistinct(HashSet<Value>)
+    CountDistinct(HashSet<Value>),
+    CollectArray { values: Vec<Value> }
 }
 
 impl GroupAggregator {
@@ -450,7 +447,9 @@ impl GroupAggregator {
             Aggregate::BoolOr(_) => GroupAggregator::BoolOr {
                 value: None
             },
-            Aggregate::CollectArray(_) => { unimplemented!(); }
+            Aggregate::CollectArray(_) => GroupAggregator::CollectArray {
+                values: Vec::new()
+            },
             Aggregate::CollectString(_, _) => { unimplemented!(); }
         }
     }
@@ -570,6 +569,10 @@ impl GroupAggregator {
             GroupAggregator::CountDistinct(values) => {
                 Ok(Some(Value::Bool(values.insert(column_value))))
             }
+            GroupAggregator::CollectArray { values } => {
+                values.push(column_value);
+                Ok(None)
+            }
         }
     }
 
@@ -586,7 +589,15 @@ impl GroupAggregator {
             }
             GroupAggregator::BoolAnd { .. } => Ok(None),
             GroupAggregator::BoolOr { .. } => Ok(None),
-            GroupAggregator::CountDistinct(_) => Ok(None)
+            GroupAggregator::CountDistinct(_) => Ok(None),
+            GroupAggregator::CollectArray { values } => {
+                Ok(
+                    values
+                        .iter()
+                        .find_map(|value| value.value_type())
+                        .map(|element_type| Value::Array(element_type, values.clone()))
+                )
+            }
         }
     }
 
@@ -598,7 +609,8 @@ impl GroupAggregator {
             GroupAggregator::Percentile { .. } => false,
             GroupAggregator::BoolAnd { .. } => false,
             GroupAggregator::BoolOr { .. } => false,
-            GroupAggregator::CountDistinct(_) => false
+            GroupAggregator::CountDistinct(_) => false,
+            GroupAggregator::CollectArray { .. } => false
         }
     }
 }
